@@ -272,6 +272,24 @@ def w_phases(ctx, wid, seed):
                 return
 
 
+def w_exec_operands(ctx, wid, seed):
+    """operands given to `exec` as one-byte hex tokens that are NOT small numbers (0x80 negative zero, 0x00, 0xff): the opcode works on the byte typed"""
+    h = Harness('plain')
+    for toks, want in ((['0x80', 'OP_INVERT'], '7f'), (['0x00', 'OP_INVERT'], 'ff'), (['0x01', '0x80', 'OP_CAT'], '0180'), (['0x80', '0x7f', 'OP_OR'], 'ff'), (['0x00', '0x80', 'OP_XOR'], '80'),
+                       (['0xff', '0x00', 'OP_AND'], '00'), (['0x8000', 'OP_1', 'OP_LEFT'], '80'), (['0x0080', 'OP_1', 'OP_RIGHT'], '80')):
+        case = dict(op=toks[-1][3:], phase='exec-operands', tokens=toks, z=1)
+        ctx.case(repr(case), True, case, 'later-script:exec-operands')
+        g = h.req(kvline('session', script=b'\x61\x51', stack=[], flags=0, sv=0, z=1, cmds='s,e:' + '+'.join(t.encode().hex() for t in toks)))
+        if 'log' not in g:
+            ctx.violations.append(dict(campaign='phases', why='session died / refused: %r' % g, case=case, refails=3))
+            return
+        ex = g['log'][1]
+        top = ex['d']['st'][-1] if ex['d']['st'] else None
+        if not ex['acc'] or top != want:
+            ctx.violations.append(dict(campaign='phases', why='`exec %s` with the option leaves %r on top (%s), the opcode applied to the bytes typed gives %s' % (' '.join(toks), top, ex['err'] or 'accepted', want), case=case, observed=top, expected=want, refails=3))
+            return
+
+
 def w_cli(ctx, wid, seed):
     """the option as the user gives it: the real btcdeb, non-interactive (script on stdin and as argument), with -z, with --allow-disabled-opcodes and
     without the option, for each of the 15 opcodes on valid operands (executed and in an unexecuted branch)"""
@@ -384,6 +402,7 @@ def run(tier, t0):
     tasks.append((w_relations, dict()))
     tasks.append((w_phases, dict()))
     tasks.append((w_cli, dict()))
+    tasks.append((w_exec_operands, dict()))
     tasks += [(w_random, dict(examples=8000 if tier == 'quick' else 100000)) for _ in range(8 if tier == 'quick' else core.WORKERS)]
     m = core.parallel(PID, tasks)
     m.exhaustive = (tier == 'thorough')
@@ -400,7 +419,7 @@ def replay(rec):
         return (not ctx.violations), str(ctx.violations[:1])
     if 'option' in c or 'phase' in c:
         ctx = core.Ctx(PID)
-        (w_cli if 'option' in c else w_phases)(ctx, 0, 0)
+        (w_cli if 'option' in c else (w_exec_operands if c.get('phase') == 'exec-operands' else w_phases))(ctx, 0, 0)
         return (not ctx.violations), str(ctx.violations[:1])
     op = [o for o, n in OPS.items() if n == c['op']][0]
     h = Harness('plain')
